@@ -67,6 +67,7 @@ var frags = map[string]frag{
 	"nestE":    {src: "FnestE EN", dst: "FnestE EN2", notes: []string{":conv CvE2 FnestE.X FnestE.X"}, scalars: []string{"FnestE.X:int", "FnestE.Y:string"}},
 	"nestE2":   {src: "FnestD EN3", dst: "FnestD EN4", notes: []string{":conv CvE3 FnestD.In.X FnestD.In.X"}, scalars: []string{"FnestD.In.X:int", "FnestD.In.Y:string", "FnestD.K:int"}},
 	"ptr":      {src: "Fptr *int", dst: "Fptr *int"},
+	"mapptr":   {src: "Pq *int", dst: "Fmp *int", notes: []string{":map Pq Fmp"}},
 	"npath":    {src: "Pn *EN", dst: "Fnp int", notes: []string{":map Pn.X Fnp"}, scalars: []string{"Fnp:int"}},
 	"sibpfx":   {src: "Fsp EN\n\tFspQ vrt.VP", dst: "Fsp EN\n\tFspQ vrt.VP", notes: []string{":literal Fsp.X 42"}, scalars: []string{"Fsp.X:int", "Fsp.Y:string", "FspQ.Pub:int"}},
 	"twin":     {src: "Ftwa EN3\n\tFtwb EN3", dst: "Ftwa EN3\n\tFtwb EN3", notes: []string{":literal Ftwb.In.X 42", ":skip Ftwb.In.Y"}, scalars: []string{"Ftwa.In.X:int", "Ftwa.In.Y:string", "Ftwa.K:int", "Ftwb.In.X:int", "Ftwb.In.Y:string", "Ftwb.K:int"}},
